@@ -52,7 +52,7 @@ PROPS["C17"] = {
 
 PROPS["C12"] = {
     "lean": ["OlricModel.Props.C12"],
-    "streams": [("kv", (40, 300), (500, 400))],
+    "streams": [("kv", (40, 300), (500, 400)), ("cluster", (6, 150), (40, 400))],
     "model": True,
     "level_text": "Theorems for every reachable store state: a cursor-resumed walk over one table yields every (matching) entry at or after the cursor exactly once for every page size >= 1 (walkTable_complete, by induction, no bound on the table); the hop to the next table picks the least existing coefficient above the current one; and the whole iteration of a fragment store from cursor 0, every page stamping lastAccess and handing the store on, ends within entries + tables + 1 pages and yields, lastAccess aside, a rearrangement of the entries of the present keys matching the pattern - every present key exactly once, nothing deleted, superseded or never stored (C12_full_walk, C12_full_walk_exactly_once, C12_full_walk_complete_sound), under an invariant on table coefficients and offsets that every store operation keeps (C12_scaninv_step/_run). The per-partition / per-member composition of the client iterators is checked by the kv and cluster streams (partial).",
     "design_ref": "DESIGN.md §6 C12",
